@@ -237,3 +237,35 @@ func init() {
 		},
 	})
 }
+
+func init() {
+	register(&Prop{
+		ID:          "C07",
+		Run:         RunC07,
+		Replay:      ReplayC07,
+		Rule:        "cases = operator trees over OR AND NOT = != <> < <= > >= [NOT] LIKE, [NOT] IN (list / UNNEST), [NOT] BETWEEN, IS [NOT] NULL/TRUE/FALSE, | ^ & << >> + - * / ||, unary + - ~, .f, [i], [OFFSET(i)] with ident / param / string / int / call atoms: exhaustive for all trees with up to 3 (quick) / 4 (thorough) operator occurrences, random trees up to 12 operators; each printed minimally parenthesised (by the documented table) and fully parenthesised; the parsed tree must equal the generating tree (ParenExpr exactly where a parenthesis was written; sign folding into numeric literals and ident.ident Path folding applied) and SQL() must re-lex to the same tokens; plus all 324 unparenthesised chains of two comparison-family operators, which must be rejected; distinct_nontrivial = enumerated trees (distinct by construction) + distinct random trees",
+		Assumptions: []string{"the precedence table in internal/mon/c07.go is the documented GoogleSQL table (levels as listed in the property statement)"},
+		Floors: func(m *Merged) []string {
+			if m.Counters["trees_checked"] == 0 || m.Counters["negative_cases"] == 0 {
+				return []string{"trees and negative cases must be observed"}
+			}
+			return nil
+		},
+	})
+}
+
+func init() {
+	register(&Prop{
+		ID:          "C06",
+		Run:         RunC06,
+		Replay:      func(c *Ctx, entry, input string) { CheckC06(c, entry, input) },
+		Rule:        "cases = accepted inputs whose own round trip (C01) holds: corpus, type seeds, sentences of G (systematic set under 3 renderings + random), accepted token mutants; for every node with a sane range: (a) if it sits in a slot whose static type is Expr / Type / QueryExpr / Statement / DDL / DML, input[Pos:End] is parsed on its own with the matching entry point and must give a tree equal to the node modulo positions; (b) input[:Pos]+' '+SQL()+' '+input[End:] must parse under the original entry point to a tree equal to the original; a node is reported only if all its descendants pass (root cause); distinct_nontrivial = distinct (entry,input)",
+		Assumptions: []string{"the slot rule (static field type) implements the property's exclusions: single-identifier Path, field-name Ident, NamedType in SchemaType slots are never in an Expr/Type slot"},
+		Floors: func(m *Merged) []string {
+			if m.Counters["substring_parses"] == 0 || m.Counters["splices"] == 0 || m.SetLen("substring_parsed_types") < 40 {
+				return []string{"sub-range parses, splices and >= 40 node types in parseable slots must be observed"}
+			}
+			return nil
+		},
+	})
+}
